@@ -14,7 +14,7 @@ from .tlaval import to_tla
 import txdbus.client
 from txdbus import authentication
 
-ACTIONS = {'Rejected': (), 'ErrorLine': (), 'Agree': (), 'Ok': ('g',), 'Data': ('k',), 'Unknown': ('k',)}
+ACTIONS = {'Rejected': (), 'ErrorLine': (), 'Agree': (), 'Ok': ('g',), 'Data': ('k',), 'Unknown': ('k',), 'AfterClose': ('k',)}
 OBS = ['offered', 'out']        # phase is bound only where it was observable in every state
 COOKIE = b'1122334455667788aabbccdd'
 
@@ -64,24 +64,34 @@ class AuthClientDriver:
             self.exc = ex
             self.t.loseConnection()
 
-    def apply(self, name, args):
+    def line_for(self, name, args):
         if name == 'Rejected':
-            self.feed(b'REJECTED EXTERNAL DBUS_COOKIE_SHA1 ANONYMOUS')
-        elif name == 'ErrorLine':
-            self.feed(b'ERROR "no"')
-        elif name == 'Agree':
-            self.feed(b'AGREE_UNIX_FD')
-        elif name == 'Ok':
-            self.feed({'valid': b'OK 1234deadbeef', 'nothex': b'OK xyz', 'missing': b'OK'}[args[0]])
-        elif name == 'Data':
-            if args[0] == 'challenge':
-                self.feed(b'DATA ' + binascii.hexlify(b'ctx 1 5ea1ed'))
-            else:
-                self.feed(b'DATA zz')
-        elif name == 'Unknown':
-            self.feed({'word': b'HELLO there', 'empty': b'', 'nontext': b'\xff\xfeOK 12', 'begin': b'BEGIN'}[args[0]])
-        else:
-            raise ValueError(name)
+            return b'REJECTED EXTERNAL DBUS_COOKIE_SHA1 ANONYMOUS'
+        if name == 'ErrorLine':
+            return b'ERROR "no"'
+        if name == 'Agree':
+            return b'AGREE_UNIX_FD'
+        if name == 'Ok':
+            return {'valid': b'OK 1234deadbeef', 'nothex': b'OK xyz', 'missing': b'OK'}[args[0]]
+        if name == 'Data':
+            return b'DATA ' + binascii.hexlify(b'ctx 1 5ea1ed') if args[0] == 'challenge' else b'DATA zz'
+        if name == 'Unknown':
+            return {'word': b'HELLO there', 'empty': b'', 'nontext': b'\xff\xfeOK 12', 'begin': b'BEGIN'}[args[0]]
+        if name == 'AfterClose':
+            return b'OK 1234deadbeef' if args[0] == 'ok' else b'REJECTED'
+        raise ValueError(name)
+
+    def apply(self, name, args):
+        self.feed(self.line_for(name, args))
+
+    def apply_many(self, acts):
+        """several server lines in ONE read"""
+        data = b''.join(self.line_for(n, a) + b'\r\n' for n, a in acts)
+        try:
+            self.c.dataReceived(data)
+        except Exception as ex:
+            self.exc = ex
+            self.t.loseConnection()
 
     def project(self):
         log = self.t.log[self.pos:]
@@ -96,6 +106,8 @@ class AuthClientDriver:
                     out += self.tokens(data)
                     data = b''
                 out.append('close')
+            elif e[0] == 'write-after-close':
+                out.append('wrote %d bytes after hanging up' % len(e[1]))
         if data:
             out += self.tokens(data)
         phase = 'closed' if self.t.disconnecting else 'begun' if self.begun else None
@@ -213,6 +225,39 @@ def replay(chk, g, paths, params, label, skip=()):
     chk.notes[label + '_replayed'] = n
 
 
+def replay_coalesced(chk, g, paths, params, label):
+    """every server line of a behaviour in one read; if the client hangs up on the way, the rest of
+    the read (and a trailing OK) must be ignored"""
+    n = 0
+    for p in paths:
+        acts = [a for a in core.path_actions(g, p) if a[0] != 'AfterClose']
+        states = [g.nodes[i] for i in p]
+        want = [t for st, a in zip(states[1:], core.path_actions(g, p)) if a[0] != 'AfterClose' for t in st['out']]
+        final = states[-1]['phase']
+        if final == 'closed':
+            acts = acts + [('AfterClose', ('ok',))]
+        if len(acts) < 2:
+            continue
+        drv = AuthClientDriver(params['unix'], params['cookie'])
+        try:
+            drv.project()
+            drv.apply_many(acts)
+            got = drv.project()
+        except Exception:
+            got = {'out': ('exception', core.traceback_str())}
+        finally:
+            drv.close()
+        n += 1
+        if tuple(got['out']) != tuple(want) or (final in ('closed', 'begun') and got.get('phase') != final):
+            chk.violation('coalesced %s: lines %s in one read: client wrote %r (phase %r), model %r (phase %r)' % (
+                label, [a[0] for a in acts], got['out'], got.get('phase'), tuple(want), final),
+                dict(kind='spec->code coalesced', module='c07', params=params, actions=[[a[0], list(a[1])] for a in acts]))
+            if len(chk.violations) >= 5:
+                break
+    chk.traces += n
+    chk.notes[label + '_coalesced'] = n
+
+
 def rand_action(rng):
     r = rng.random()
     if r < 0.3:
@@ -282,6 +327,7 @@ def run(tier, seed):
             if len(dfs) > cap:
                 dfs = rng.sample(dfs, cap)
             replay(chk, g, dfs, params, label + ' depth%d' % depth)
+            replay_coalesced(chk, g, dfs[:1500 if not thorough else 20000] + list(core.edge_cover_paths(g)), params, label)
             # against the reference server: every subset of accepted mechanisms x answers
             res, gp = tlc.dump_graph('AuthPair', 'p.cfg', extra={'p.cfg': client_cfg(unix, ck, True)}, timeout=300, workers=4)
             chk.tlc_stats(res, 'AuthPair ' + label)
